@@ -32,6 +32,7 @@ PROP = dict(
         dict(module="MCRoundTripConfig", cfg="MCRoundTripConfig_mut_multipass.cfg", expect_violation="SubstAgreesMC", timeout=300),
         dict(module="MCRoundTripConfig", cfg="MCRoundTripConfig_mut_stripkey.cfg", expect_violation="KeyParamBoundMC", timeout=300),
         dict(module="MCRoundTripConfig", cfg="MCRoundTripConfig_mut_sharedcodecs.cfg", expect_violation="OwnCodecsMC", timeout=300),
+        dict(module="MCRoundTripConfig", cfg="MCRoundTripConfig_mut_defaultonempty.cfg", expect_violation="MultiAgreesMC", timeout=300),
     ],
     level_text="RoundTrip carries compact encode / transport / decode tables per parameter location (path: PathEscape -> EscapedPath, "
                "path.Clean, segment match, PathUnescape; query and urlencoded form: QueryEscape -> ParseQuery; header: verbatim -> OWS "
